@@ -40,7 +40,10 @@ REACH_PROBES = ["recycled_power_flow_executed", "batch_read_path_taken", "only_v
 CTRL_TARGETS = [("load", "p_mw"), ("load", "q_mvar"), ("load", "scaling"), ("sgen", "p_mw"), ("sgen", "q_mvar"),
                 ("sgen", "scaling"), ("storage", "p_mw"), ("gen", "p_mw"), ("gen", "vm_pu"), ("ext_grid", "vm_pu"),
                 ("ext_grid", "va_degree"), ("trafo", "tap_pos"), ("line", "length_km"), ("line", "r_ohm_per_km"),
-                ("line", "x_ohm_per_km"), ("line", "max_i_ka"), ("load", "p_mw"), ("sgen", "p_mw")]
+                ("line", "x_ohm_per_km"), ("line", "max_i_ka"), ("load", "p_mw"), ("sgen", "p_mw"),
+                ("storage", "q_mvar"), ("storage", "scaling"), ("gen", "scaling"), ("trafo3w", "tap_pos"),
+                ("line", "c_nf_per_km"), ("trafo", "vk_percent"), ("trafo", "in_service"), ("line", "in_service"),
+                ("load", "in_service"), ("sgen", "in_service"), ("shunt", "q_mvar"), ("trafo", "max_loading_percent")]
 LOG_VARS = [("res_bus", "vm_pu"), ("res_bus", "va_degree"), ("res_bus", "p_mw"), ("res_line", "loading_percent"),
             ("res_line", "i_ka"), ("res_line", "p_from_mw"), ("res_line", "i_from_ka"), ("res_line", "pl_mw"),
             ("res_trafo", "loading_percent"), ("res_trafo", "i_hv_ka"), ("res_trafo", "p_hv_mw"),
@@ -214,6 +217,8 @@ def _profile_values(net, op, row, T=N_PROFILE):
             if not (pd.isna(lo) or pd.isna(hi)):
                 v = int(min(max(v, lo), hi))
             vals.append(float(v))
+        elif var == "in_service":
+            vals.append(bool(op["ints"][t % len(op["ints"])] > -2))      # mostly in service, sometimes out
         elif var == "vm_pu":
             vals.append(round(1.0 + (f - 1.0) * 0.06, 4))
         elif var == "va_degree":
